@@ -5,7 +5,7 @@
    Section variables: they are the trusted base named in the evidence.  Everything about integers,
    booleans, text, categorical labels, paths, the group-by split and the index lookup is proved.   *)
 From Coq Require Import NArith ZArith Bool Ascii String List Permutation.
-From Pq Require Import Base.Bytes Impl.Partition Proofs.PartitionStr Proofs.PartitionProofs Proofs.PartitionE2E.
+From Pq Require Import Base.Bytes Impl.Partition Proofs.PartitionStr Proofs.PartitionProofs Proofs.PartitionE2E Proofs.PartitionNulls Impl.PartHandle Proofs.PartHandleProofs.
 Import ListNotations.
 
 Section C08.
@@ -142,13 +142,15 @@ Section C08.
      _val_to_num converts - all three proved - or floats / timestamps whose text the guesses convert back to the value
      (parse_guess (str v) = v: a hypothesis about float(), pd.Timestamp() per value, trusted base).  Pv_drill: non-empty
      legal segment text; the metadata pm of the file is arbitrary - it plays no role for drill since fix b6723cb.
+     A TEXT level may also hold timedelta texts in their canonical spelling (class LDelta, wave 3): texts `show_delta d` that
+     pd.Timedelta converts back (parse_guess (show_delta d) = VDelta d, same kind of hypothesis) come back as the timedeltas.
      The levels come back as dir0, dir1, ... with the guessed value of the key text.  Levels mixing classes are not
      covered by this theorem (text mixed with other classes reads back as text since fix 2ae7489).              *)
   Theorem C08_multiset_drill :
     forall (pm : list (str * kind)) (names : list str), names <> [] ->
     forall ord : list str -> list str, (forall l x, In x (ord l) <-> In x l) ->
-    forall (lk : str -> lclass) (chunks : list (list (row F T D P))),
-    frame_ok F T D P (dnames names) (Pv_drill F T D show_float parse_float show_time_iso show_time_str parse_time_pd parse_delta lk) (concat chunks) ->
+    forall (lk : str -> lclass) (show_delta : D -> str) (chunks : list (list (row F T D P))),
+    frame_ok F T D P (dnames names) (Pv_drill F T D show_float parse_float show_time_iso show_time_str parse_time_pd parse_delta lk show_delta) (concat chunks) ->
     exists sch out,
       read_model F T D feqb teqb deqb f_eq_Z parse_float parse_time_np parse_time_fmt parse_time_pd parse_delta P pm ord
         (write_model F T D feqb teqb deqb f_eq_Z show_float show_time_iso show_time_str P false names chunks) = Some (sch, out) /\
@@ -161,8 +163,8 @@ Section C08.
   Qed.
 
   Theorem C08_placement_drill :
-    forall (names : list str) (lk : str -> lclass) (chunks : list (list (row F T D P))),
-    frame_ok F T D P (dnames names) (Pv_drill F T D show_float parse_float show_time_iso show_time_str parse_time_pd parse_delta lk) (concat chunks) ->
+    forall (names : list str) (lk : str -> lclass) (show_delta : D -> str) (chunks : list (list (row F T D P))),
+    frame_ok F T D P (dnames names) (Pv_drill F T D show_float parse_float show_time_iso show_time_str parse_time_pd parse_delta lk show_delta) (concat chunks) ->
     let files := write_model F T D feqb teqb deqb f_eq_Z show_float show_time_iso show_time_str P false names chunks in
     Permutation (concat (map snd files)) (filter (nonnull F T D P) (concat chunks)) /\
     forall f r, In f files -> In r (snd f) ->
@@ -172,8 +174,58 @@ Section C08.
     exact (drill_placement F T D feqb teqb deqb f_eq_Z show_float parse_float show_time_iso show_time_str
              parse_time_pd parse_delta feqb_spec teqb_spec deqb_spec P).
   Qed.
+
+  (* ---- rows with a NULL partition key, with NO hypothesis on the values (wave 3; Proofs/PartitionNulls.v) ----
+     pandas' groupby drops them; the model says so explicitly and the tie (write_model ~ the written tree; oracle "rows with
+     a NULL key nowhere") checks it on every generated frame, incl. the regression stream "one distinct key + NULLs". *)
+  Theorem C08_null_keys_nowhere : forall hive names (chunks : list (list (row F T D P))) path rows r,
+    In (path, rows) (write_model F T D feqb teqb deqb f_eq_Z show_float show_time_iso show_time_str P hive names chunks) ->
+    In r rows -> nonnull F T D P r = true.
+  Proof. exact (null_rows_nowhere F T D feqb teqb deqb f_eq_Z show_float show_time_iso show_time_str P). Qed.
+
+  (* a row group whose rows with all keys present carry ONE key (and any number of rows with NULL keys in between): exactly one
+     file, dir(key)/part.i.parquet, holding exactly the rows without NULL key in frame order; all keys NULL: no file at all *)
+  Theorem C08_single_key_with_nulls : forall hive names i (rows : list (row F T D P)) r0 rest,
+    filter (nonnull F T D P) rows = r0 :: rest ->
+    (forall r, In r rows -> nonnull F T D P r = true ->
+               keys_eqb F T D feqb teqb deqb f_eq_Z (key_of F T D P r) (key_of F T D P r0) = true) ->
+    write_chunk F T D feqb teqb deqb f_eq_Z show_float show_time_iso show_time_str P hive names i rows
+    = [(rel_path F T D show_float show_time_iso show_time_str hive names (key_of F T D P r0) (part_name i),
+        filter (nonnull F T D P) rows)].
+  Proof. exact (write_chunk_single_key F T D feqb teqb deqb f_eq_Z show_float show_time_iso show_time_str P). Qed.
+
+  Theorem C08_all_null_chunk_writes_nothing : forall hive names i (rows : list (row F T D P)),
+    (forall r, In r rows -> nonnull F T D P r = false) ->
+    write_chunk F T D feqb teqb deqb f_eq_Z show_float show_time_iso show_time_str P hive names i rows = [].
+  Proof. exact (write_chunk_all_null F T D feqb teqb deqb f_eq_Z show_float show_time_iso show_time_str P). Qed.
+
+  (* ---- one handle, edited through its own methods (wave 3; Impl/PartHandle.v) ----
+     ParquetFile.write_row_groups / remove_row_groups change the row groups and re-derive scheme and cats (_set_attrs).  For EVERY
+     dataset, EVERY sequence of appends and removals through the handle, the read through the handle - which uses the partition state
+     STORED on the handle - is the read of a freshly opened handle on the files it then has; with C08_multiset_* the rows and
+     partition values are then right after any such program.  Tie: stream F (programs on one handle vs a fresh handle vs read_model). *)
+  Theorem C08_handle_programs : forall (pm : list (str * kind)) (ord : list str -> list str)
+      (fs : list (str * list (row F T D P))) (ops : list (edit F T D P)),
+    h_read F T D feqb teqb deqb f_eq_Z parse_float parse_time_np parse_time_fmt parse_time_pd parse_delta P pm
+      (fold_left (h_edit F T D feqb teqb deqb f_eq_Z parse_float parse_time_np parse_time_fmt parse_time_pd parse_delta P pm ord) ops
+                 (h_open F T D feqb teqb deqb f_eq_Z parse_float parse_time_np parse_time_fmt parse_time_pd parse_delta P pm ord fs))
+    = read_model F T D feqb teqb deqb f_eq_Z parse_float parse_time_np parse_time_fmt parse_time_pd parse_delta P pm ord
+        (fold_left (apply_edit F T D P) ops fs).
+  Proof. exact (handle_program F T D feqb teqb deqb f_eq_Z parse_float parse_time_np parse_time_fmt parse_time_pd parse_delta P). Qed.
 End C08.
 
+(* the same edit WITHOUT re-deriving the stored partition state (anything cached on the handle that an edit does not refresh):
+   the read through the handle differs from the fresh read - computed witness: k=a on disk, k=b appended through the handle *)
+Theorem C08_handle_stale_state_refuted :
+  exists (fs : list (str * list (row E0 E0 E0 nat))) (e : edit E0 E0 E0 nat),
+    c_h_read (h_edit_stale E0 E0 E0 nat (c_h_open fs) e) <> cread [(s_ "k", KStr)] (apply_edit E0 E0 E0 nat fs e).
+Proof. exact handle_stale_state_refuted. Qed.
+Print Assumptions C08_handle_stale_state_refuted.
+Print Assumptions C08_handle_programs.
+
+Print Assumptions C08_null_keys_nowhere.
+Print Assumptions C08_single_key_with_nulls.
+Print Assumptions C08_all_null_chunk_writes_nothing.
 Print Assumptions C08_int_text_roundtrip.
 Print Assumptions C08_python_int_of_str.
 Print Assumptions C08_bool_text_roundtrip.
@@ -232,6 +284,12 @@ Example C08_categorical_labels_nonvacuous :
   cread [(s_ "c", KCat (Some (KInt true 64)))]
     (cwrite true [s_ "c"] [[([Some (VCat (VInt 5))], 0%nat); ([Some (VCat (VInt (-7)))], 1%nat); ([Some (VCat (VInt 5))], 2%nat)]])
   = Some (Hive, [([(s_ "c", VInt 5)], 0%nat); ([(s_ "c", VInt 5)], 2%nat); ([(s_ "c", VInt (-7))], 1%nat)]).
+Proof. vm_compute. reflexivity. Qed.
+
+(* one distinct key + NULL keys in one row group: one file with the two rows that have the key, in frame order *)
+Example C08_single_key_with_nulls_nonvacuous :
+  cwrite true [s_ "k"] [[([None], 0%nat); ([Some (VInt 7)], 1%nat); ([None], 2%nat); ([Some (VInt 7)], 3%nat)]; [([None], 4%nat)]]
+  = [(s_ "k=7/part.0.parquet", [([Some (VInt 7)], 1%nat); ([Some (VInt 7)], 3%nat)])].
 Proof. vm_compute. reflexivity. Qed.
 
 Example C08_nonvacuous :
